@@ -372,67 +372,101 @@ def nobase_mod_rule(chk, prog, rule="NOBASE"):
 # RADIX: numbers are converted in the radix the scanner decided (10 or 16), never by strtoul's own prefix detection
 # ---------------------------------------------------------------------------------------------------------------------
 
-def radix_rule(chk, prog, rule="RADIX"):
-    """nasm reads `010` as ten; strtoul(s, 0, 0) reads it as eight.  The base argument of every strtoul/strtol in the library is a
-    constant 10 or 16, or a variable that only ever receives those (directly, or through a pointer handed to a helper)."""
-    from .core import kids, strip, walk, expr_str, loc_str, ConstEval, callee_name, call_args, ref_name
-    ce = ConstEval(prog)
-    lib = prog.lib_functions()
-    n = 0
+class IntVals:
+    """Finite value sets of int expressions built from constants: conditional expressions, locals (ordered by the top-level
+    statement that defines them; what precedes the last certain definition is dead), results of library helpers (their return
+    expressions) and values helpers store through a pointer argument.  None = cannot tell."""
 
-    def stores_through_param(gname, idx, depth=0):
-        """constants a function stores through its idx-th (pointer) parameter; None if something else is stored"""
-        g = lib.get(gname)
-        if g is None or depth > 3:
+    def __init__(self, prog):
+        from .core import ConstEval
+        self.prog = prog
+        self.ce = ConstEval(prog)
+        self.lib = prog.lib_functions()
+
+    def expr(self, f, e, use=None, depth=0):
+        from .core import kids, strip, ref_name, callee_name
+        e = strip(e, casts=True)
+        if e is None or depth > 6:
             return None
-        ps = prog.params(g)
+        v = self.ce.try_eval(e)
+        if v is not None:
+            return {v}
+        k = e.get("kind")
+        if k == "ConditionalOperator":
+            x, y = self.expr(f, kids(e)[1], use, depth + 1), self.expr(f, kids(e)[2], use, depth + 1)
+            return None if (x is None or y is None) else x | y
+        if k == "CallExpr" and callee_name(e) in self.lib:
+            return self.returns(callee_name(e), depth + 1)
+        if k == "DeclRefExpr" and (e.get("referencedDecl") or {}).get("kind") == "VarDecl":
+            return self.var(f, ref_name(e), use if use is not None else e, depth + 1)
+        return None
+
+    def returns(self, gname, depth=0):
+        from .core import kids, walk
+        g = self.lib.get(gname)
+        if g is None or self.prog.body(g) is None or depth > 6:
+            return None
+        out = set()
+        for m in walk(self.prog.body(g)):
+            if m.get("kind") == "ReturnStmt" and kids(m):
+                vs = self.expr(g, kids(m)[0], m, depth + 1)
+                if vs is None:
+                    return None
+                out |= vs
+        return out or None
+
+    def stores_through_param(self, gname, idx, depth=0):
+        """values a function stores through its idx-th (pointer) parameter; None if something unresolvable is stored"""
+        from .core import kids, strip, walk, ref_name, callee_name, call_args
+        g = self.lib.get(gname)
+        if g is None or depth > 4:
+            return None
+        ps = self.prog.params(g)
         if idx >= len(ps):
             return None
         pn = ps[idx]["name"]
         vals = set()
-        for m in walk(prog.body(g)):
+        for m in walk(self.prog.body(g)):
             if m.get("kind") in ("BinaryOperator", "CompoundAssignOperator") and m.get("opcode", "").endswith("=") and \
                     m.get("opcode") not in ("==", "!=", "<=", ">="):
                 l = strip(kids(m)[0])
                 if l.get("kind") == "UnaryOperator" and l.get("opcode") == "*" and ref_name(strip(kids(l)[0], casts=True)) == pn:
-                    v = ce.try_eval(kids(m)[1]) if m.get("opcode") == "=" else None
-                    if v is None:
+                    vs = self.expr(g, kids(m)[1], m, depth + 1) if m.get("opcode") == "=" else None
+                    if vs is None:
                         return None
-                    vals.add(v)
-            if m.get("kind") == "CallExpr" and callee_name(m) in lib:
+                    vals |= vs
+            if m.get("kind") == "CallExpr" and callee_name(m) in self.lib:
                 for j, a in enumerate(call_args(m)):
                     if ref_name(strip(a, casts=True)) == pn:
-                        sub = stores_through_param(callee_name(m), j, depth + 1)
+                        sub = self.stores_through_param(callee_name(m), j, depth + 1)
                         if sub is None:
                             return None
                         vals |= sub
         return vals
 
-    def must_store(gname, idx):
-        """does the function store a constant through its idx-th parameter in a top-level statement that no return precedes"""
-        g = lib.get(gname)
+    def must_store(self, gname, idx):
+        """does the function store through its idx-th parameter in a top-level statement that no return precedes"""
+        from .core import kids, strip, walk, ref_name
+        g = self.lib.get(gname)
         if g is None:
             return False
-        ps = prog.params(g)
+        ps = self.prog.params(g)
         if idx >= len(ps):
             return False
         pn = ps[idx]["name"]
-        for st in kids(prog.body(g)):
+        for st in kids(self.prog.body(g)):
             st0 = strip(st)
             if st0.get("kind") == "BinaryOperator" and st0.get("opcode") == "=":
                 l = strip(kids(st0)[0])
-                if l.get("kind") == "UnaryOperator" and l.get("opcode") == "*" and ref_name(strip(kids(l)[0], casts=True)) == pn and \
-                        ce.try_eval(kids(st0)[1]) is not None:
+                if l.get("kind") == "UnaryOperator" and l.get("opcode") == "*" and ref_name(strip(kids(l)[0], casts=True)) == pn:
                     return True
             if any(x.get("kind") in ("ReturnStmt", "GotoStmt") for x in walk(st)):
                 return False
         return False
 
-    def _var_values(f, nm, use):
-        """values the local `nm` may hold at the call `use`: definitions are ordered by the top-level statement of the body they sit
-        in; everything before the last definition that certainly executes (an initialiser, a top-level assignment, a top-level call
-        of a helper that always stores through &nm) is dead"""
-        tops = kids(prog.body(f))
+    def var(self, f, nm, use, depth=0):
+        from .core import kids, strip, walk, ref_name, callee_name, call_args
+        tops = kids(self.prog.body(f))
         defs = []       # (top index, values or None, certain?)
         use_idx = None
         for ti, st in enumerate(tops):
@@ -442,20 +476,23 @@ def radix_rule(chk, prog, rule="RADIX"):
                 top_level = strip(st) is m or (st.get("kind") == "DeclStmt" and m in kids(st)) or \
                     (st.get("kind") == "DeclStmt" and any(kids(d) and strip(kids(d)[-1], casts=True) is m for d in kids(st)))
                 if m.get("kind") == "VarDecl" and m.get("name") == nm and kids(m):
-                    iv = ce.try_eval(kids(m)[-1])
-                    defs.append((ti, None if iv is None else {iv}, True))
+                    defs.append((ti, self.expr(f, kids(m)[-1], m, depth + 1), True))
                 elif m.get("kind") in ("BinaryOperator", "CompoundAssignOperator") and m.get("opcode", "").endswith("=") and \
                         m.get("opcode") not in ("==", "!=", "<=", ">=") and strip(kids(m)[0]).get("kind") == "DeclRefExpr" and \
                         ref_name(strip(kids(m)[0])) == nm:
-                    iv = ce.try_eval(kids(m)[1]) if m.get("opcode") == "=" else None
-                    defs.append((ti, None if iv is None else {iv}, top_level and m.get("opcode") == "="))
-                elif m.get("kind") == "CallExpr" and callee_name(m) in lib:
+                    iv = self.expr(f, kids(m)[1], m, depth + 1) if m.get("opcode") == "=" else None
+                    defs.append((ti, iv, top_level and m.get("opcode") == "="))
+                elif m.get("kind") == "UnaryOperator" and m.get("opcode") in ("++", "--") and ref_name(strip(kids(m)[0], casts=True)) == nm:
+                    defs.append((ti, None, False))
+                elif m.get("kind") == "CallExpr" and callee_name(m) in self.lib:
                     for j, x in enumerate(call_args(m)):
                         x0 = strip(x, casts=True)
                         if x0.get("kind") == "UnaryOperator" and x0.get("opcode") == "&" and ref_name(strip(kids(x0)[0])) == nm:
-                            defs.append((ti, stores_through_param(callee_name(m), j), top_level and must_store(callee_name(m), j)))
-        if use_idx is None or not defs:
+                            defs.append((ti, self.stores_through_param(callee_name(m), j), top_level and self.must_store(callee_name(m), j)))
+        if not defs:
             return None
+        if use_idx is None:
+            use_idx = len(tops)
         certain = [ti for ti, _, must in defs if must and ti < use_idx]
         start = max(certain) if certain else -1
         vals = set()
@@ -467,7 +504,15 @@ def radix_rule(chk, prog, rule="RADIX"):
             vals |= vs
         return vals or None
 
-    for fn, f in sorted(lib.items()):
+
+def radix_rule(chk, prog, rule="RADIX"):
+    """nasm reads `010` as ten; strtoul(s, 0, 0) reads it as eight.  The base argument of every strtoul/strtol in the library is a
+    constant 10 or 16, or an expression / variable that only ever yields those (directly, through a helper's result, or through a
+    pointer handed to a helper)."""
+    from .core import walk, expr_str, loc_str, callee_name, call_args
+    iv = IntVals(prog)
+    n = 0
+    for fn, f in sorted(prog.lib_functions().items()):
         for c in walk(prog.body(f)):
             if c.get("kind") != "CallExpr" or callee_name(c) not in ("strtoul", "strtol", "strtoull", "strtoll"):
                 continue
@@ -477,17 +522,7 @@ def radix_rule(chk, prog, rule="RADIX"):
             n += 1
             key = "%s/%s@%s" % (rule, fn, loc_str(c))
             want = "%s() converts in the radix the scanner decided (10 or 16)" % callee_name(c)
-            def arg_values(e):
-                e = strip(e, casts=True)
-                v = ce.try_eval(e)
-                if v is not None:
-                    return {v}
-                if e.get("kind") == "ConditionalOperator":
-                    x, y = arg_values(kids(e)[1]), arg_values(kids(e)[2])
-                    return None if (x is None or y is None) else x | y
-                nm = ref_name(e) if e.get("kind") == "DeclRefExpr" else None
-                return _var_values(f, nm, c) if nm else None
-            vals = arg_values(a[2])
+            vals = iv.expr(f, a[2], c)
             if vals is None:
                 chk.broken(rule, key, loc_str(c), want, "cannot resolve the values of the base argument %s" % expr_str(a[2]))
                 continue
